@@ -465,8 +465,8 @@ func ruleR09_12(w *World, r *Report) {
 				fnName(fn)+" takes a new rollback point: this function is not one of the (re)initialisation sites; when it runs while a local transaction is open (a response that carries no operations does not wait for the transaction lock) the rollback point lies in the middle of that transaction, and a failure of the transaction no longer restores the state from before it began")
 		}
 	}
-	if n < 4 {
-		r.Lost(fmt.Sprintf("callers of ResetTransaction (found %d, expected the four known sites)", n))
+	if n < 3 { // initialisation, import, and the subscriber's point in updateStateOfDatatype; the one in checkOptionAndError is replaced by the latter
+		r.Lost(fmt.Sprintf("callers of ResetTransaction (found %d, expected at least the three necessary sites)", n))
 	}
 }
 
